@@ -31,6 +31,14 @@ STRENGTHENED = """Checks strengthened because a seeded change was missed (genera
   burst (one segment or back-to-back) instead of one by one with the endpoint idle in between; the application handler may return
   at once; a focused burst family (immediate replies, unsolicited primaries at equal instants, no later traffic that would rescue a
   stranded block) runs under preemptions in the dispatcher and the receive hand-over.
+* **C07** `C07-commack-falsy-accepts-empty` - refusing S1F14 bodies carry any COMMACK other than one byte 0: values 1, 2, 64,
+  255 and an item without any byte (decodable, but not "COMMACK = 0").
+* **C08** `C08-reply-system-zero-falsy` - primaries carry boundary system bytes (0, 1, 2^31-1, 2^31, 2^32-1) besides the peer's
+  running counter; C05's peer counter may start just below 2^32 for the same reason.
+* **C20** `C20-protocol-enabled-before-commstate` - schedules with parked preemptions inside `enable`/`disable` and the link-event
+  handlers; this also uncovered a limitation of the scheduler itself: busy-waiting threads (`_start_receiver`) were given their
+  turn only after parked threads had been resumed, so a preempted thread could never be overtaken by the connect thread. The
+  scheduler now serves busy-waiters before it resumes parked threads (all simulation-based checks re-run, no new report).
 
 Sibling catches (a change to one property's anchored code seen by another check as well): `C20-report-values-shared-across-reports`
 by C12; `C05-source-check-outside-lock` by C18; the reversal of fix d663f2e by C05 and C09.
@@ -52,7 +60,7 @@ def main():
         strengthened += bool(v.get("check_strengthened"))
     body = f"""### 8.2 Independently seeded changes (`/verif/seeded/<name>/`)
 
-{len(rows)} changes (four batches: 12 + 11 + 12 + 8) were written by fresh sub-agents that saw only the text of one property and a
+{len(rows)} changes (five batches: 12 + 11 + 12 + 8 + 12) were written by fresh sub-agents that saw only the text of one property and a
 scratch worktree of /repo (nothing from /verif). Each has `patch.diff`, `demo.py` (fails with the change, passes without)
 and `meta.json` (what it needs to manifest, why the suite does not notice, what was run). Every one was confirmed here in a
 scratch worktree of /repo HEAD (`python -m vf.selftest.seeded confirm <name>`: demo exit 0 without / exit 1 with the patch,
